@@ -1221,6 +1221,16 @@ class Interp:
         if e('Option::is_none_or'): return args[0].variant == 0 or self.truth(self.call_value(args[1], [args[0].fields[0]]))
         if e('Option::map_or'): return self.call_value(args[2], [args[0].fields[0]]) if args[0].variant == 1 else args[1]
         if e('Option::or'): return args[0] if args[0].variant == 1 else args[1]
+        if e('Option::or_else'): return args[0] if args[0].variant == 1 else self.call_value(args[1], [])
+        if e('Option::xor'): return args[0] if args[0].variant == 1 and args[1].variant == 0 else args[1] if args[0].variant == 0 and args[1].variant == 1 else Agg('Option', 0, [])
+        if e('Option::and'): return args[1] if args[0].variant == 1 else args[0]
+        if e('Option::zip'): return Agg('Option', 1, [Agg('tuple', None, [args[0].fields[0], args[1].fields[0]])]) if args[0].variant == 1 and args[1].variant == 1 else Agg('Option', 0, [])
+        if e('Option::ok_or_else'): return Agg('Result', 0, [args[0].fields[0]]) if args[0].variant == 1 else Agg('Result', 1, [self.call_value(args[1], [])])
+        if e('Option::map_or_else'): return self.call_value(args[2], [args[0].fields[0]]) if args[0].variant == 1 else self.call_value(args[1], [])
+        if e('Option::get_or_insert_with') or e('Option::insert'):
+            p = args[0]
+            if e('insert') or p.get().variant == 0: p.set(Agg('Option', 1, [args[1] if e('insert') else self.call_value(args[1], [])]))
+            return p.sub(0)
         if e('Option::take'):
             p = args[0]; old = p.get(); p.set(Agg('Option', 0, [])); return old
         if e('Option::as_deref') or e('Option::as_mut'):
